@@ -110,7 +110,7 @@ func resolveType(pkg *packages.Package, text string) types.Type {
 	}
 	if i := strings.Index(text, "."); i >= 0 {
 		pn, tn := text[:i], text[i+1:]
-		if p := findImport(pkg, pn); p != nil {
+		if p := findImportWith(pkg, pn, tn); p != nil {
 			if o := p.Scope().Lookup(tn); o != nil {
 				return o.Type()
 			}
@@ -128,25 +128,34 @@ func resolveType(pkg *packages.Package, text string) types.Type {
 }
 
 func findImport(pkg *packages.Package, name string) *types.Package {
+	return findImportWith(pkg, name, "")
+}
+
+// findImportWith finds the package known as `name` (preferring the package's own imports, then the
+// closest transitive import) that declares `member` (if given).
+func findImportWith(pkg *packages.Package, name, member string) *types.Package {
 	if pkg == nil {
 		return nil
 	}
-	seen := map[*types.Package]bool{}
-	var search func(p *types.Package, d int) *types.Package
-	search = func(p *types.Package, d int) *types.Package {
-		if seen[p] || d > 2 {
-			return nil
-		}
-		seen[p] = true
-		for _, im := range p.Imports() {
-			if im.Name() == name {
-				return im
+	has := func(p *types.Package) bool { return member == "" || p.Scope().Lookup(member) != nil }
+	search := func(root *types.Package, _ int) *types.Package {
+		// breadth first over the import graph: the closest package with that name
+		seen := map[*types.Package]bool{root: true}
+		level := []*types.Package{root}
+		for d := 0; d < 5 && len(level) > 0; d++ {
+			var next []*types.Package
+			for _, p := range level {
+				for _, im := range p.Imports() {
+					if im.Name() == name && has(im) {
+						return im
+					}
+					if !seen[im] {
+						seen[im] = true
+						next = append(next, im)
+					}
+				}
 			}
-		}
-		for _, im := range p.Imports() {
-			if r := search(im, d+1); r != nil {
-				return r
-			}
+			level = next
 		}
 		return nil
 	}
@@ -162,7 +171,7 @@ func findImport(pkg *packages.Package, name string) *types.Package {
 			if is.Name != nil {
 				local = is.Name.Name
 			}
-			if local == name {
+			if local == name && has(ip.Types) {
 				return ip.Types
 			}
 		}
@@ -807,9 +816,9 @@ func (c *EvalCtx) evalCall(e *Expr) TVal {
 	case "fresh":
 		v := c.eval(e.Args[0])
 		if v.S == sSlice {
-			return c.mk("(or (= (s-arr "+v.T+") 0) (> (s-arr "+v.T+") AllocBase))", sBool, tb)
+			return c.mk("(or (= (s-arr "+v.T+") 0) (> (fa_root (s-arr "+v.T+")) AllocBase))", sBool, tb)
 		}
-		return c.mk("(> "+v.T+" AllocBase)", sBool, tb)
+		return c.mk("(> (fa_root "+v.T+") AllocBase)", sBool, tb)
 	case "isnil":
 		v := c.eval(e.Args[0])
 		switch v.S {
